@@ -44,6 +44,9 @@ CONSTANTS Kind,               \* "data" | "timer" | "fd" | "signal"
           AllowSuspend,       \* one dispatch_suspend / dispatch_resume pair by the client
           AllowHup,           \* fd: the peer may close (EPOLLHUP)
           MaxEv,              \* bound on kernel events / merges / timer fires
+          HupFix,             \* FALSE: pinned code: _dispatch_source_merge_evt finalizes any unote it finds unregistered
+                              \*        (EV_UDATA_SPECIFIC == 0 on this backend, so the guard of that branch is void);
+                              \* TRUE: repaired: only for EV_ONESHOT deliveries (never the case for muxed epoll unotes)
           Mut                 \* "none" or a spec mutation (non-vacuity)
 
 NULL == "null"
@@ -84,7 +87,7 @@ vars == <<src, lane, exe, kern, pc, lv, cli, gh>>
 
 L0 == [onq |-> "none", dqf |-> {}, ret |-> "none", retq |-> "none", avoid |-> FALSE,
        wkf |-> {}, wdqf |-> {}, wdu |-> DU0, wktq |-> "none", wkret |-> "idle",
-       ctx |-> "none", ccont |-> "idle", ucont |-> "idle", tcont |-> "idle", acont |-> "idle",
+       ctx |-> "none", ccont |-> "idle", ucont |-> "idle", tcont |-> "idle", acont |-> "idle", mcont |-> "idle",
        prev |-> 0, old |-> {}]
 
 Init ==
@@ -282,9 +285,9 @@ LXchg(t) ==
 HStart(t) ==
     /\ pc[t] = "h_start"
     /\ gh' = [gh EXCEPT
-          !.hRunning = @ + 1, !.hStarts = @ + 1,
-          !.lateStarts = IF gh.foreignOr THEN @ + 1 ELSE @,
-          !.startsAfterCaw = IF gh.cawRet THEN @ + 1 ELSE @,
+          !.hRunning = @ + 1, !.hStarts = IF @ < 1 THEN @ + 1 ELSE @,      \* counters saturate: finite state space
+          !.lateStarts = IF gh.foreignOr /\ @ < 2 THEN @ + 1 ELSE @,
+          !.startsAfterCaw = IF gh.cawRet /\ @ < 2 THEN @ + 1 ELSE @,
           !.bad = IF @ # "" THEN @
                   ELSE IF gh.ownCancel THEN "handler_started_after_cancel_from_own_context"
                   ELSE IF gh.foreignOr /\ gh.lateStarts >= 1 THEN "second_handler_start_after_foreign_cancel"
@@ -350,7 +353,7 @@ CcTake(t) ==
 ChStart(t) ==
     /\ pc[t] = "ch_start"
     /\ gh' = [gh EXCEPT
-          !.chStarts = @ + 1,
+          !.chStarts = IF @ < 2 THEN @ + 1 ELSE @,
           !.bad = IF @ # "" THEN @
                   ELSE IF gh.chStarts >= 1 THEN "cancel_handler_invoked_twice"
                   ELSE IF lv[t].onq # "tq" THEN "cancel_handler_not_on_target_queue"
@@ -360,7 +363,7 @@ ChStart(t) ==
                   ELSE ""]
     /\ Go(t, "ch_end")
     /\ UNCHANGED <<src, lane, exe, kern, lv, cli>>
-ChEnd(t) == /\ pc[t] = "ch_end" /\ gh' = [gh EXCEPT !.chEnds = @ + 1] /\ Go(t, lv[t].tcont)
+ChEnd(t) == /\ pc[t] = "ch_end" /\ gh' = [gh EXCEPT !.chEnds = IF @ < 2 THEN @ + 1 ELSE @] /\ Go(t, lv[t].tcont)
             /\ UNCHANGED <<src, lane, exe, kern, lv, cli>>
 CcDone(t) == /\ pc[t] = "cc_done" /\ Set(t, "i_rearm", [lv[t] EXCEPT !.dqf = src.dqf])
              /\ UNCHANGED <<src, lane, exe, kern, cli, gh>>
@@ -418,8 +421,19 @@ PopMgr ==
     /\ UNCHANGED <<src, lane, kern, cli, gh>>
 
 (* ---------------- kernel events, delivered on the manager thread ---------------- *)
-\* _dispatch_source_merge_evt: (state read; never unregistered here on this backend) dx_wakeup(EVENT | CONSUME_2 | MAKE_DIRTY)
-MergeEvt(t, retpc) == Wake(t, {"event", "dirty"}, retpc)
+\* _dispatch_source_merge_evt: du_state = _dispatch_unote_state(du);
+\*   if (!(flags & EV_UDATA_SPECIFIC) && !_du_state_registered(du_state) && !timer) finalize_unregistration(ds);
+\*   dx_wakeup(EVENT | CONSUME_2 | MAKE_DIRTY)
+MergeEvt(t, retpc) == Set(t, "me_du", [lv[t] EXCEPT !.mcont = retpc])
+MeDu(t) ==
+    /\ pc[t] = "me_du"
+    /\ IF ~src.du.reg /\ ~IsTimer /\ ~HupFix
+       THEN Set(t, "u_final", [lv[t] EXCEPT !.ucont = "me_wk"])
+       ELSE Set(t, "wk_r1", [lv[t] EXCEPT !.wkf = {"event", "dirty"}, !.wkret = lv[t].mcont, !.mcont = "idle"])
+    /\ UNCHANGED <<src, lane, exe, kern, cli, gh>>
+MeWk(t) == /\ pc[t] = "me_wk"
+           /\ Set(t, "wk_r1", [lv[t] EXCEPT !.wkf = {"event", "dirty"}, !.wkret = lv[t].mcont, !.mcont = "idle"])
+           /\ UNCHANGED <<src, lane, exe, kern, cli, gh>>
 \* epoll_wait returned the ONESHOT registration: _dispatch_event_merge_fd
 MFd ==
     /\ pc[MGR] = "idle" /\ Kind = "fd" /\ kern.reg /\ kern.armed /\ kern.mux /\ (kern.readable \/ kern.hup)
@@ -578,7 +592,7 @@ Lib(t) == WkRead1(t) \/ WkRead2(t) \/ WkRmw(t) \/ WkBcXor(t) \/ UUnreg(t) \/ UDu
           \/ Done(t) \/ InvLock(t) \/ IInst(t) \/ IInstall(t) \/ ISusp(t) \/ INdel(t) \/ IDqf(t) \/ IPend(t)
           \/ LXchg(t) \/ HStart(t) \/ HBody(t) \/ HEnd(t) \/ LDqf2(t) \/ LPend2(t) \/ ICancel(t) \/ IDqf3(t)
           \/ ICallout(t) \/ CcTake(t) \/ ChStart(t) \/ ChEnd(t) \/ CcDone(t) \/ IRearm(t) \/ IResume(t)
-          \/ InvFin(t) \/ InvXor(t)
+          \/ InvFin(t) \/ InvXor(t) \/ MeDu(t) \/ MeWk(t)
 MgrStep == PopMgr \/ MFd \/ MFdDu \/ MFdPd \/ MHupDu \/ MHupPd \/ MHupDel \/ MSig \/ MTmr
 CawStep == CawRmw \/ CawLock \/ CawL1 \/ CawL2 \/ CawBc \/ CawAct \/ CawWait0 \/ CawChk \/ CawCas \/ CawFutex \/ CawRet
 Env == PeerWrite \/ PeerClose \/ Raise
@@ -597,7 +611,7 @@ PCs == {"idle", "wk_r1", "wk_r2", "wk_rmw", "wk_bcxor", "u_unreg", "u_du", "u_fi
         "act_rmw", "act_final", "act_inst", "act_res", "done", "inv_lock", "i_inst", "i_install", "i_susp",
         "i_ndel", "i_dqf", "i_pend", "l_xchg", "h_start", "h_body", "h_end", "l_dqf2", "l_pend2", "i_cancel",
         "i_dqf3", "i_callout", "cc_take", "ch_start", "ch_end", "cc_done", "i_rearm", "i_resume", "inv_fin",
-        "inv_xor", "m_fd_du", "m_fd_pd", "m_hup_du", "m_hup_pd", "m_hup_del", "md_add", "caw_rmw", "caw_lock",
+        "inv_xor", "m_fd_du", "m_fd_pd", "m_hup_du", "m_hup_pd", "m_hup_del", "me_du", "me_wk", "md_add", "caw_rmw", "caw_lock",
         "caw_l1", "caw_l2", "caw_bc", "caw_act", "caw_wait0", "caw_chk", "caw_cas", "caw_futex", "caw_sleep", "caw_ret"}
 TypeOK == /\ src.dqf \subseteq Flags /\ src.pending \in 0..1 /\ pc \in [Threads -> PCs]
           /\ lane.lock \in Threads \cup {NULL} /\ lane.enq \in {"none", "tq", "mgr"} /\ lane.susp \in 0..1
